@@ -3,9 +3,11 @@
 id=$1; prop=$2; tier=${3:-quick}
 cd /verif
 git -C /repo apply /verif/seeded/$id/patch.diff || exit 2
+cp evidence/$prop.json /tmp/seedtest_ev_$id.json 2>/dev/null   # the evidence file is for the unchanged tree: put it back afterwards
 ./check $prop $tier > /tmp/seedtest_$id.out 2>&1
 rc=$?
 git -C /repo checkout -- .
+[ -f /tmp/seedtest_ev_$id.json ] && mv /tmp/seedtest_ev_$id.json evidence/$prop.json
 tail -${4:-3} /tmp/seedtest_$id.out
 f=$(grep -o 'replay=[^ ]*' /tmp/seedtest_$id.out | head -1 | cut -d= -f2)
 { echo "\$ git -C /repo apply seeded/$id/patch.diff && ./check $prop $tier ; git -C /repo checkout -- .   (exit $rc)"; tail -4 /tmp/seedtest_$id.out; [ -n "$f" ] && [ -f "$f" ] && { echo "--- replay file (head) ---"; head -c 1800 "$f"; }; } > /verif/seeded/$id/check_output.txt
